@@ -915,18 +915,33 @@ class ProcessingPipeline:
             allow_external_sources=allow_external_sources,
         )
 
-    def apply(self, rule: SigmaRule | SigmaCorrelationRule) -> SigmaRule | SigmaCorrelationRule:
-        """Apply processing pipeline on Sigma rule."""
+    def apply(
+        self,
+        rule: SigmaRule | SigmaCorrelationRule,
+        enclosing: "ProcessingPipeline | None" = None,
+    ) -> SigmaRule | SigmaCorrelationRule:
+        """
+        Apply processing pipeline on Sigma rule. A nested pipeline is applied with the pipeline that
+        encloses it: its items then start from the state, the applied items and the field tracking
+        reached there instead of from scratch.
+        """
         # The items may have been adopted by another pipeline object in the meantime (each
         # concatenation re-assigns its operands' items to the result). Make sure that they read
         # and write the state of the pipeline that is applied.
         self._clear_pipeline()
         self.set_pipeline()
         self.applied = list()
-        self.applied_ids = set()
-        self.field_name_applied_ids = defaultdict(set)
         self.field_mappings = FieldMappingTracking()
-        self.state = dict()
+        if enclosing is None:
+            self.applied_ids = set()
+            self.field_name_applied_ids = defaultdict(set)
+            self.state = dict()
+        else:
+            self.applied_ids = set(enclosing.applied_ids)
+            self.field_name_applied_ids = defaultdict(
+                set, {name: set(ids) for name, ids in enclosing.field_name_applied_ids.items()}
+            )
+            self.state = dict(enclosing.state)
         for item in self.items:
             applied = item.apply(rule)
             self.applied.append(applied)
